@@ -6,11 +6,18 @@ import json, os, re
 VERIF = os.path.dirname(os.path.dirname(os.path.abspath(__file__)))
 rows = {}
 for line in open(os.path.join(VERIF, "seeded", "MATRIX.txt")):
-    m = re.match(r"RUN: seed=(\S+) check=(\S+) exit=(\d+) violations_lines=(\d+) time=(\d+)s :: ?(.*)", line)
+    m = re.match(r"RUN(\[thorough\])?: seed=(\S+) check=(\S+) exit=(\d+) violations_lines=(\d+) time=(\d+)s :: ?(.*)", line)
     if not m:
         continue
-    seed, chk, ex, nv, t, msg = m.groups()
-    rows.setdefault(seed, {})[chk] = (int(ex), int(t), msg.strip())
+    tier, seed, chk, ex, nv, t, msg = m.groups()
+    if tier:
+        # a thorough-tier run only adds information where the quick tier was silent
+        old = rows.get(seed, {}).get(chk)
+        if old and old[0] == 1:
+            continue
+        rows.setdefault(seed, {})[chk] = (int(ex), t + "s, thorough tier only", msg.strip())
+        continue
+    rows.setdefault(seed, {})[chk] = (int(ex), t + "s", msg.strip())
 
 out = ["| seeded change | breaks | needs | reported by (quick tier, seconds) | silent (property not broken) | first report |", "|---|---|---|---|---|---|"]
 missed = []
@@ -21,7 +28,7 @@ for seed in sorted(rows):
     except Exception:
         pass
     prop = meta.get("property", seed[:3])
-    det = [f"{c} ({t}s)" for c, (ex, t, _) in sorted(rows[seed].items()) if ex == 1]
+    det = [f"{c} ({t})" for c, (ex, t, _) in sorted(rows[seed].items()) if ex == 1]
     sil = [c for c, (ex, t, _) in sorted(rows[seed].items()) if ex == 0]
     bad = [c for c, (ex, t, _) in sorted(rows[seed].items()) if ex not in (0, 1)]
     own = rows[seed].get(prop)
